@@ -85,8 +85,8 @@ def run(prop, tier, seed, replay=None):
         "in-place overloads (a += b, add(r, a, b), ...) are tied to the same model function as the three-operand ones (same body with b := a); "
         "aliasing beyond that is property C15",
         "rint<K> is modelled as its field Value (the two's-complement image) and the theorems read results with the signed reading sval; the wrappers "
-        "modelled branch by branch are add/sub/mul/addmul/neg/~/cmp/lmul/lsquare/div_q/div_r/<</>>/sign extension; rint inv_mod, mod_n and the "
-        "mixed rint (x) scalar division forms are checked against the specification by correspondence only",
+        "modelled branch by branch are add/sub/mul/addmul/neg/~/cmp/lmul/lsquare/div_q/div_r/<</>>/sign extension/mod_n (both widths)/inv_mod; the "
+        "mixed rint (x) built-in scalar division, shift, comparison and bit forms are checked against the specification by correspondence only",
         "conversions to/from built-in types: the C casts of a limb to a narrower or signed type and uint64_t -> double (round to nearest even) are "
         "modelled by their arithmetic contracts; ruint<6>(double b) for b < 0 is undefined in C++ (the model takes the x86-64 result b mod 2^64); "
         "(double) of a ruint/rint converts only the least significant limb: exact below 2^53, and for values >= 2^64 the result is the double of "
